@@ -218,7 +218,7 @@ pub fn check_stress(case: &ConcCase, exp: &Expected, trace: &ConcTrace) -> Optio
             )
             .collect();
         return Some(Discrepancy {
-            props: vec!["C10", "C02", "C04"],
+            props: vec!["C10", "C02", "C04", "C18"],
             at: "multiset of call outcomes".into(),
             expected: "every position of every chain / every ordered slot handed out exactly once".into(),
             observed: format!("{diff:?}"),
